@@ -20,7 +20,60 @@ class Ctx:
             self._cfg[finfo.qual] = c
         return c
 
+    def global_initialiser(self, modname, least=5):
+        """The parameterless module-level function of `modname` that declares (and so re-binds) the most module globals: the
+        module's reset routine, whatever it is called."""
+        import ast as _ast
+        best, nbest = None, 0
+        for f in self.p.funcs_in(modname):
+            if f.cls is not None or f.parent is not None or f.params:
+                continue
+            k = len({x for n in _ast.walk(f.node) if isinstance(n, _ast.Global) for x in n.names})
+            if k > nbest:
+                best, nbest = f, k
+        if best is None or nbest < least:
+            raise AnalysisError(f"{modname}: no parameterless function re-binding at least {least} module globals (the reset routine) found")
+        self.p.consulted.add(modname)
+        return best
+
+    def callee_in(self, caller, modname):
+        """The one function of module `modname` that `caller` calls (an anchor that survives the renaming of that function)."""
+        fs = {t.qual: t for _, t in self.r.callees(caller, by_name=False) if t.module.name == modname}
+        if len(fs) != 1:
+            raise AnalysisError(f"{caller.qual} calls {len(fs)} functions of {modname} ({sorted(fs)}); exactly one expected")
+        self.p.consulted.add(modname)
+        return next(iter(fs.values()))
+
+    def with_helpers(self, finfo):
+        """finfo and the functions / methods of its own module that it (transitively) calls: what an extract-helper refactoring
+        spreads one function over."""
+        seen, work = {}, [finfo]
+        while work:
+            f = work.pop()
+            if f.qual in seen:
+                continue
+            seen[f.qual] = f
+            for _, t in self.r.callees(f, by_name=False):
+                if t.module.name == finfo.module.name and t.qual not in seen:
+                    work.append(t)
+        return list(seen.values())
+
     def func(self, qual):
+        """The anchor function; a function (or a class holding the method) that was moved to another module and is imported back
+        under the same name by the anchor module is followed through the import."""
+        if qual in self.p.functions:
+            return self.p.func(qual)
+        parts = qual.split(".")
+        for k in range(len(parts) - 1, 0, -1):
+            modname = ".".join(parts[:k])
+            if modname in self.p.modules:
+                kind, q2 = self.r.resolve_name(modname, parts[k])
+                if kind in ("func", "class") and q2 and q2 != ".".join(parts[:k + 1]):
+                    moved = ".".join([q2] + parts[k + 1:])
+                    if moved in self.p.functions:
+                        self.p.consulted.add(modname)
+                        return self.p.func(moved)
+                break
         return self.p.func(qual)
 
 
